@@ -528,6 +528,12 @@ class C14(FaultMonitorMixin, BaseMonitor):
                     if other2 is not other:
                         q.append({"op": "bad_group", "changes": [other2, other, bad], "fault": e["fault"],
                                   "strong": e["strong"], "obj": e["obj"], "attr": e["attr"]})
+                # ... and after a valid change of another input of the very same object
+                sibling = self.valid_change_on(e["obj"], e["attr"])
+                if sibling is not None:
+                    bad = {"obj": e["obj"], "attr": e["attr"], "value": e["value"]}
+                    q.append({"op": "bad_group", "changes": [sibling, bad], "fault": e["fault"] + ":after_same_object_change",
+                              "strong": e["strong"], "obj": e["obj"], "attr": e["attr"]})
                     # ... and right after a change that changes nothing (a form re-submitting every field): the
                     # library drops such no-op changes from the list while parsing it
                     same = {"obj": other["obj"], "attr": other["attr"],
@@ -536,14 +542,27 @@ class C14(FaultMonitorMixin, BaseMonitor):
                               "strong": e["strong"], "obj": e["obj"], "attr": e["attr"]})
                     q.append({"op": "bad_group", "changes": [other, same, bad], "fault": e["fault"] + ":after_valid_and_noop",
                               "strong": e["strong"], "obj": e["obj"], "attr": e["attr"]})
-                if e["fault"] in ("list_with_wrong_class", "list_with_non_object"):
-                    wrong = e["value"][1][-1] if e["fault"] == "list_with_wrong_class" else 3.5
+                if e["fault"] in ("list_with_wrong_class", "list_with_non_object", "list_with_wrong_class_read_from_model"):
+                    wrong = 3.5 if e["fault"] == "list_with_non_object" else e["value"][1][-1]
                     for m in ("append", "insert", "extend", "iadd", "setitem"):
                         if m == "setitem" and not spec["objs"][e["obj"]]["attrs"][e["attr"]][1]:
                             continue
                         q.append({"op": "bad_list", "obj": e["obj"], "attr": e["attr"], "method": m, "bad": wrong,
+                                  "as_read": e["fault"].endswith("read_from_model"),
                                   "fault": e["fault"] + ":" + m, "strong": True})
             self.queue = q
+
+    def valid_change_on(self, name, other_than):
+        """A valid value change of another numeric input of object `name`."""
+        r = self.k.rng("valid-change-on", name, other_than)
+        spec = self.sim.spec
+        attrs = [a for a in opgen.editable_numeric(spec, name) if a != other_than]
+        if not attrs:
+            return None
+        a = r.choice(attrs)
+        o = spec["objs"][name]
+        return {"obj": name, "attr": a, "value": opgen.new_quantity(r, o["cls"], a, o["attrs"][a], allow_zero=False),
+                "src": ["user data", None], "label": f"{a} of {name} (companion)"}
 
     def valid_change(self, exclude, kinds=("numeric",), tag=""):
         r = self.k.rng("valid-change", exclude, kinds, tag)
